@@ -308,6 +308,8 @@ func Explore(sc *Scenario, opt Options) *Stats {
 				if p.Preemptive {
 					cpre = 1
 				}
+			case vrt.KTimer:
+				cpre = 1
 			case vrt.KEnv:
 				cdev = 1
 			}
